@@ -22,6 +22,10 @@ def poly(v, K):
     return L.PolynomialLayer(Scope([v]), K, degree=1, coeff=P.Parameter.from_input(P.ConstantParameter(K, 2, value=1.0)))
 
 
+def cat(v, K):
+    return L.CategoricalLayer(Scope([v]), K, num_categories=2, probs=P.Parameter.from_input(P.ConstantParameter(K, 2, value=0.5)))
+
+
 def emb(v, K):
     return L.EmbeddingLayer(Scope([v]), K, num_states=2, weight=P.Parameter.from_input(P.ConstantParameter(K, 2, value=1.0)))
 
@@ -274,12 +278,103 @@ def const_case(rep, cs, seed, i):
     cs.add(desc, term, interp, nontrivial=True)
 
 
+def query_case(rep, cs, seed, i):
+    """query-side checks: IntegrateQuery / SamplingQuery refuse circuits that are not smooth and decomposable, integration scopes
+    that are not a subset of the circuit scope (also ids lying in a hole of a non-contiguous scope), malformed masks, non-positive
+    sample counts; valid requests are accepted"""
+    import torch
+    import evalc
+    from cirkit.backend.torch.queries import IntegrateQuery, SamplingQuery
+    rng = rng_for(seed, PID + "query", i)
+    valid = rng.random() < 0.7
+    vs = gen.VAR_SETS[rng.choice(["dense", "sparse", "sparse", "big", "shift"])](rng.choice([2, 3, 3]))
+    a = random_dag(rng, vs, rng.randint(1, 5), K=1, bias_valid=0.98 if valid else 0.4, input_factory=cat)
+    if a is None or not a.scope._set:
+        return
+    sm, de = spec_preds(a)
+    scope = sorted(a.scope._set)
+    desc = {"i": i, "seed": seed, "op": "query", "family": "query", "smooth": sm, "dec": de, "n": len(a.layers), "scope": scope}
+    rep.count("family:query")
+    fold, opt = rng.choice(evalc.FLAGS)
+    try:
+        cc = evalc.make_ctx("sum-product", fold, opt).compile(a)
+    except Exception as e:
+        rep.count("query-compile-failed:" + type(e).__name__)
+        return
+    iq, e1 = call(IntegrateQuery, cc)
+    sq, e2 = call(SamplingQuery, cc)
+    for nm, q, er in (("IntegrateQuery", iq, e1), ("SamplingQuery", sq, e2)):
+        if not (sm and de) and er != "ValueError":
+            rep.violation("query-no-structural-refusal", f"{nm} accepted a circuit that is not smooth and decomposable", {"case": desc, "observed": er or "constructed"})
+        if sm and de and q is None:
+            rep.violation("query-refuses-valid", f"{nm} refused a smooth and decomposable circuit", {"case": desc, "observed": er})
+    term, impl = None, None
+    if sm and de and iq is not None:
+        W = max(scope) + 1
+        holes = [v for v in range(W) if v not in scope]
+        kind = rng.choice(["ok", "ok", "above", "hole", "hole", "mixed", "list", "mask-width", "mask-dtype", "batch"])
+        if kind in ("hole", "mixed") and not holes:
+            kind = "above"
+        B = rng.choice([1, 2, 3])
+        x = torch.zeros((B, W), dtype=torch.long)
+        bad = True
+        if kind == "ok":
+            Z, bad = sorted(rng.sample(scope, rng.randint(1, len(scope)))), False
+            arg = Scope(Z)
+        elif kind == "above":
+            Z = [scope[0], W + rng.choice([0, 1, 3])]
+            arg = Scope(Z)
+        elif kind == "hole":
+            Z = [rng.choice(holes)]
+            arg = Scope(Z)
+        elif kind == "mixed":
+            Z = sorted({scope[-1], rng.choice(holes)})
+            arg = Scope(Z)
+        elif kind == "list":
+            Z = [rng.choice(holes)] if holes and rng.random() < 0.6 else [scope[0]]
+            bad = Z[0] not in scope
+            arg = [Scope([scope[0]])] * (B - 1) + [Scope(Z)]
+        elif kind == "mask-width":
+            Z, arg = None, torch.zeros((B, W + 1), dtype=torch.bool)
+        elif kind == "mask-dtype":
+            Z, arg = None, torch.zeros((B, W), dtype=torch.long)
+        else:
+            Z, arg = None, [Scope([scope[0]])] * (B + 2)
+        desc.update({"kind": kind, "Z": Z, "batch": B})
+        rep.count("query:" + kind)
+        res, err = call(iq, x, integrate_vars=arg)
+        if bad and err != "ValueError":
+            rep.violation("query-invalid-accepted", "IntegrateQuery accepted an invalid integration request (variables outside the circuit scope, "
+                          "malformed mask or wrong number of scopes)", {"case": desc, "observed": err or f"returned a tensor of shape {tuple(res.shape)}"})
+        if not bad and res is None:
+            rep.violation("query-refuses-valid", "IntegrateQuery refused a valid integration scope", {"case": desc, "observed": err})
+        if not bad and res is not None and tuple(res.shape) != (B, len(a.outputs), 1):
+            rep.violation("query-shape", "IntegrateQuery returned a tensor of the wrong shape", {"case": desc, "observed": list(res.shape)})
+        _, err0 = call(sq, 0) if sq is not None else (None, "ValueError")
+        if err0 != "ValueError":
+            rep.violation("query-invalid-accepted", "SamplingQuery accepted a non-positive number of samples", {"case": desc, "observed": err0 or "returned"})
+        if Z is not None and kind != "list":
+            ex = export.Exporter()
+            impl = [0 if err is None else 2 if err == "ValueError" else 9]
+            term = f"[res_code (integrate_m {export.ex_nats(Z)} {ex.circuit(a)})]"
+    if term is None:
+        rep.case(desc, True)
+        return
+
+    def interp(res_, desc=desc, impl=impl):
+        if res_ != impl:
+            rep.violation("refusal-corr", "the model operator integrate_m and IntegrateQuery disagree on whether the integration scope is refused (0 ok, 2 value error)",
+                          {"case": desc, "model": res_, "implementation": impl}, found_input=False)
+
+    cs.add(desc, term, interp, nontrivial=True)
+
+
 def run(rep, tier, seed, replay=None):
     n = 300 if tier == "quick" else 5000
     cs = CaseSet(rep, PID)
     if replay is not None:
         c = replay["replay"].get("case", {})
-        {"overlapping-output-scopes": overlap_case, "constant-inputs": const_case}.get(c.get("family"), one_case)(rep, cs, c.get("seed", seed), c.get("i", 0))
+        {"overlapping-output-scopes": overlap_case, "constant-inputs": const_case, "query": query_case}.get(c.get("family"), one_case)(rep, cs, c.get("seed", seed), c.get("i", 0))
         cs.run()
         return
     for i in range(n):
@@ -288,4 +383,6 @@ def run(rep, tier, seed, replay=None):
         overlap_case(rep, cs, seed, i)
     for i in range(max(20, n // 12)):
         const_case(rep, cs, seed, i)
+    for i in range(max(40, n // 6)):
+        query_case(rep, cs, seed, i)
     cs.run(shard=max(10, 300 // 14))  # shard size of the quick tier: thorough runs use more files, not longer ones
